@@ -47,14 +47,14 @@ type SImport struct {
 }
 
 type SPkg struct {
-	Key     string
-	Imports []SImport
-	Defs    []*SDef
-	Files   int
-	RawTail string // raw text appended to file 0 (mutants)
-	RawFile string // complete raw text of file 0 (token-level mutants)
+	Key      string
+	Imports  []SImport
+	Defs     []*SDef
+	Files    int
+	RawTail  string // raw text appended to file 0 (mutants)
+	RawFile  string // complete raw text of file 0 (token-level mutants)
 	RegExtra string // extra registry statements (C16 pairs)
-	NoOpt   bool
+	NoOpt    bool
 }
 
 type Schema struct {
